@@ -1,6 +1,6 @@
 (* Correspondence entry point: one op name + arguments -> canonical observation.
    Extracted to OCaml (Extract.v) and driven by ocaml/driver.ml. *)
-From Ufw Require Import Base.Val Base.Bits Base.Errno Model.Crc Model.ByteBuffer.
+From Ufw Require Import Base.Val Base.Bits Base.Errno Model.Crc Model.ByteBuffer Model.Endpoints Model.Varint.
 Local Open Scope string_scope.
 Local Open Scope N_scope.
 
@@ -63,9 +63,55 @@ Definition run_bb (op : string) (a : list val) : list val :=
     end
   else [VS "unknown-op"].
 
+(* ---------------- varint (C14) ---------------- *)
+Definition vkind_of (n : N) : vkind :=
+  match n with 0 => KU32 | 1 => KS32 | 2 => KU64 | _ => KS64 end.
+Definition vdres (r : dres) : val :=
+  match r with DOk k => VN k | DErr e => VS (ename e) end.
+
+Definition run_vi (op : string) (a : list val) : list val :=
+  let k := vkind_of (argN 0 a) in
+  if String.eqb op "vi.enc" then
+    let size := argN 2 a in
+    match bb_set true (repeat 0 (N.to_nat size)) size (argN 3 a) (argN 4 a) with
+    | None => [VS "skip"]
+    | Some b =>
+        let '(e, len, b') := vi_encode_buf k b (argZ 1 a) in
+        [match e with None => VN len | Some e => VS (ename e) end;
+         VN (vi_length (vk_arg k (argZ 1 a))); VN (bb_used b'); VN (bb_offset b'); VH (bb_mem b')]
+    end
+  else if String.eqb op "vi.dec" then
+    let mem := argH 1 a in let n := N.of_nat (length mem) in
+    match bb_set true mem n n (argN 2 a) with
+    | None => [VS "skip"]
+    | Some b =>
+        let '(r, b') := vi_decode k b in
+        match r with
+        | VOk u c => [VN c; vint (vk_result k u); VN (bb_offset b')]
+        | VIllegal => [VS "EILSEQ"; VS "-"; VN (bb_offset b')]
+        | VShort => [VS "ENODATA"; VS "-"; VN (bb_offset b')]
+        end
+    end
+  else if String.eqb op "vi.src" then
+    let s := src_plain (argB 2 a) (argH 1 a) in
+    let '(r, s') := vi_from_source k s in
+    let pos := N.of_nat (length (argH 1 a) - length (s_stream s')) in
+    match r with
+    | SOk u c => [VN c; vint (vk_result k u); VN pos]
+    | SIllegal => [VS "EILSEQ"; VS "-"; VN pos]
+    | SErr e => [VS (ename e); VS "-"; VN pos]
+    end
+  else if String.eqb op "vi.sink" then
+    match vi_to_sink k (argZ 1 a) (snk_plain (argB 2 a)) with
+    | Some (r, k') => [vdres r; VH (k_got k')]
+    | None => [VS "out-of-fuel"]
+    end
+  else [VS "unknown-op"].
+
 Definition prefix_of (p s : string) : bool := String.prefix p s.
 
 Definition dispatch (op : string) (a : list val) : list val :=
   if prefix_of "crc." op then run_crc op a
   else if prefix_of "bb." op then run_bb op a
+  else if prefix_of "vi." op then run_vi op a
   else [VS "unknown-op"].
